@@ -369,11 +369,8 @@ func (c *compiler) evalUpdateIndex(left, index, value interface{}) error {
 					// nil is the zero value of the element type
 					nv = reflect.Zero(elemType)
 				}
-				if elemType.Kind() != reflect.Interface {
-					t := nv.Type()
-					if elemType != t {
-						err = fmt.Errorf("cannot use '%v' (untyped %s constant) as %s value in assignment", value, t, elemType)
-					}
+				if t := nv.Type(); elemType != t && !(elemType.Kind() == reflect.Interface && t.AssignableTo(elemType)) {
+					err = fmt.Errorf("cannot use '%v' (untyped %s constant) as %s value in assignment", value, t, elemType)
 				}
 				if err == nil {
 					rv.Index(i).Set(nv)
@@ -609,11 +606,8 @@ func (c *compiler) arrayOperator(l interface{}, r interface{}, op string) (inter
 		}
 
 		elemType := reflect.TypeOf(l).Elem()
-		if elemType.Kind() != reflect.Interface {
-			t := reflect.ValueOf(r).Type()
-			if elemType != t {
-				err = fmt.Errorf("cannot append '%v' (untyped %s constant) as %s value in assignment", r, t, elemType)
-			}
+		if t := reflect.TypeOf(r); elemType != t && !(elemType.Kind() == reflect.Interface && t.AssignableTo(elemType)) {
+			err = fmt.Errorf("cannot append '%v' (untyped %s constant) as %s value in assignment", r, t, elemType)
 		}
 		if err == nil {
 			return reflect.Append(reflect.ValueOf(l), reflect.ValueOf(r)), nil
